@@ -1,4 +1,5 @@
 import CogentModel.Proofs.PhyloBasic
+import CogentModel.Proofs.PhyloPhi
 set_option linter.unusedSimpArgs false
 set_option linter.unnecessarySeqFocus false
 /-! C09: `unrooted` preserves tips and every distance. -/
@@ -57,19 +58,16 @@ theorem tips_bumpLen [Add K] (e : Option K) (s : PTree K) : tips (bumpLen e s) =
 section dist
 variable [AddCommMonoid K]
 
-theorem splitW_bump (d : K) (a b : String) (s : PTree K) (sl xl : K) (hs : s.len = some sl) :
-    splitW d a b (edgeSplit (bumpLen (some xl) s)) =
-      splitW d a b (edgeSplit s) + (if sep a b (tips s) then xl else 0) := by
+theorem phiW_bump (d : K) (φ : List String → Bool) (s : PTree K) (sl xl : K) (hs : s.len = some sl) :
+    phiW d φ (edgeSplit (bumpLen (some xl) s)) =
+      phiW d φ (edgeSplit s) + (if φ (tips s) then xl else 0) := by
   have e1 : edgeSplit (bumpLen (some xl) s) = ⟨s.name, some (sl + xl), tips s⟩ := by
     simp [edgeSplit, bumpLen, tips_rename, hs, addLen]
   have e2 : edgeSplit s = ⟨s.name, some sl, tips s⟩ := by simp [edgeSplit, hs]
   rw [e1, e2]
-  simp only [splitW, lenOr]
+  simp only [phiW, lenOr]
   split <;> simp
 
-theorem sum_splitsL_single (d : K) (a b : String) (s : PTree K) :
-    sumBy (splitW d a b) (splitsL [s]) = splitW d a b (edgeSplit s) + sumBy (splitW d a b) (splits s) := by
-  simp [splitsL, sumBy]
 
 omit [AddCommMonoid K] in
 /-- the two sides of the root of a two-child tree separate the same pairs -/
@@ -91,17 +89,34 @@ omit [AddCommMonoid K] in
 theorem splits_eq_children (x : PTree K) : splits x = splitsL x.children := by
   cases x; rfl
 
-theorem splitW_edge_some (d : K) (a b : String) (x : PTree K) (xl : K) (hx : x.len = some xl) :
-    splitW d a b (edgeSplit x) = if sep a b (tips x) then xl else 0 := by
-  simp [splitW, edgeSplit, hx, lenOr]
+theorem phiW_edge_some (d : K) (φ : List String → Bool) (x : PTree K) (xl : K) (hx : x.len = some xl) :
+    phiW d φ (edgeSplit x) = if φ (tips x) then xl else 0 := by
+  simp [phiW, edgeSplit, hx, lenOr]
+
+omit [AddCommMonoid K] in
+/-- the two sides of the root of a two-child tree are the same bipartition -/
+theorem phi_sister (x s : PTree K) (T : List String) (hT : (tips x ++ tips s).Perm T) (hnd : T.Nodup)
+    (φ : List String → Bool) (hφ : BipPred T φ) : φ (tips s) = φ (tips x) := by
+  have hnd' := (hT.nodup_iff).2 hnd
+  have hdisj := (List.nodup_append.1 hnd').2.2
+  apply hφ.compl
+  intro c hc
+  have hmem := (hT.mem_iff (a := c)).2 hc
+  constructor
+  · intro h1 h2; exact hdisj c h2 c h1 rfl
+  · intro h2
+    rcases List.mem_append.1 hmem with h | h
+    · exact absurd h h2
+    · exact h
 
 theorem sep_both_mem (a b : String) (A : List String) (ha : a ∈ A) (hb : b ∈ A) : sep a b A = false := by
   simp [sep, ha, hb]
 
-/-- `unrooted` preserves every tip-to-tip distance (all lengths at the root present). -/
-theorem unrooted_dist (d : K) (t : PTree K) (hnd : (tips t).Nodup)
-    (hlen : ∀ c ∈ t.children, ∃ l, c.len = some l) (a b : String) (ha : a ∈ tips t) (hb : b ∈ tips t) :
-    distSpec d a b (unrooted t) = distSpec d a b t := by
+/-- `unrooted` preserves every bipartition functional (all lengths at the root present): the edge
+above the collapsed node and the sister edge carry the same bipartition, their weights merge. -/
+theorem unrooted_phi (d : K) (t : PTree K) (hnd : (tips t).Nodup)
+    (hlen : ∀ c ∈ t.children, ∃ l, c.len = some l) (φ : List String → Bool) (hφ : BipPred (tips t) φ) :
+    topoWeight d φ (unrooted t) = topoWeight d φ t := by
   cases t with
   | node n l cs =>
     simp only [unrooted]
@@ -116,41 +131,47 @@ theorem unrooted_dist (d : K) (t : PTree K) (hnd : (tips t).Nodup)
         simp only [children_node] at hlen
         obtain ⟨xl, hxl⟩ := hlen x (by simp)
         have hxt : tips x = tipsL x.children := tips_of_children x hxc
-        simp only [distSpec, splits]
+        simp only [topoWeight, splits]
         match pre, post, hlt with
         | [], [], _ =>
-          simp only [List.nil_append, List.cons_append] at ha hb hnd hlen ⊢
+          simp only [List.nil_append, List.cons_append] at hφ hnd hlen ⊢
           have htt : tips (PTree.node n l [x]) = tips x := by simp [tips, tipsL]
-          rw [htt] at ha hb
+          rw [htt] at hφ
           simp only [List.map_nil, List.nil_append, List.append_nil, splitsL, sumBy, sumBy_append,
-            splitW_edge_some d a b x xl hxl, sep_both_mem a b _ ha hb, splits_eq_children x]
+            phiW_edge_some d φ x xl hxl, hφ.all_in (tips x) (fun _ h => h), splits_eq_children x]
           simp
         | [s], [], _ =>
-          simp only [List.nil_append, List.cons_append] at ha hb hnd hlen ⊢
+          simp only [List.nil_append, List.cons_append] at hφ hnd hlen ⊢
           obtain ⟨sl, hsl⟩ := hlen s (by simp)
           have htt : tips (PTree.node n l [s, x]) = tips s ++ tips x := by simp [tips, tipsL]
-          have hsep := sep_sister x s _ (by rw [htt]; exact List.perm_append_comm) hnd a b ha hb
+          have hsep := phi_sister x s _ (by rw [htt]; exact List.perm_append_comm) hnd φ hφ
           have hb' : bumpLen (some xl) s = PTree.node s.name (addLen s.len (some xl)) s.children := rfl
           simp only [List.map_cons, List.map_nil, List.nil_append, List.append_nil, List.cons_append,
-            splitsL, splitsL_append, sumBy, sumBy_append, hxl, splitW_bump d a b s sl xl hsl,
-            splitW_edge_some d a b x xl hxl, hsep, splits_eq_children x]
+            splitsL, splitsL_append, sumBy, sumBy_append, hxl, phiW_bump d φ s sl xl hsl,
+            phiW_edge_some d φ x xl hxl, hsep, splits_eq_children x]
           rw [hb', splits_rename]
           abel
         | [], [s], _ =>
-          simp only [List.nil_append, List.cons_append] at ha hb hnd hlen ⊢
+          simp only [List.nil_append, List.cons_append] at hφ hnd hlen ⊢
           obtain ⟨sl, hsl⟩ := hlen s (by simp)
           have htt : tips (PTree.node n l [x, s]) = tips x ++ tips s := by simp [tips, tipsL]
-          have hsep := sep_sister x s _ (by rw [htt]) hnd a b ha hb
+          have hsep := phi_sister x s _ (by rw [htt]) hnd φ hφ
           have hb' : bumpLen (some xl) s = PTree.node s.name (addLen s.len (some xl)) s.children := rfl
           simp only [List.map_cons, List.map_nil, List.nil_append, List.append_nil, List.cons_append,
-            splitsL, splitsL_append, sumBy, sumBy_append, hxl, splitW_bump d a b s sl xl hsl,
-            splitW_edge_some d a b x xl hxl, hsep, splits_eq_children x]
+            splitsL, splitsL_append, sumBy, sumBy_append, hxl, phiW_bump d φ s sl xl hsl,
+            phiW_edge_some d φ x xl hxl, hsep, splits_eq_children x]
           rw [hb', splits_rename]
           abel
         | _ :: _ :: _, _, h => simp at h <;> omega
         | _ :: _, _ :: _, h => simp at h <;> omega
         | [], _ :: _ :: _, h => simp at h <;> omega
     · rfl
+
+/-- … in particular every tip-to-tip distance -/
+theorem unrooted_dist (d : K) (t : PTree K) (hnd : (tips t).Nodup)
+    (hlen : ∀ c ∈ t.children, ∃ l, c.len = some l) (a b : String) (ha : a ∈ tips t) (hb : b ∈ tips t) :
+    distSpec d a b (unrooted t) = distSpec d a b t :=
+  unrooted_phi d t hnd hlen (sep a b) (bipPred_sep _ a b ha hb)
 
 end dist
 
